@@ -17,9 +17,14 @@ limitations under the License.
 
 package remote
 
+import "context"
+
 // This file only re-exports unexported state for the verification harness.
 // It is compiled only with the build tag "verif".
 
 // VerifReferrersState returns the referrers capability state of r:
 // 0 unknown, 1 supported, 2 unsupported.
 func VerifReferrersState(r *Repository) int { return int(r.loadReferrersState()) }
+
+// VerifPingReferrers re-exports pingReferrers.
+func VerifPingReferrers(ctx context.Context, r *Repository) (bool, error) { return r.pingReferrers(ctx) }
